@@ -1,12 +1,12 @@
 #!/bin/bash
 # usage: seeddemo.sh <PROP>  -- runs the seed's demonstration without and with its patch in a scratch worktree
 export GOFLAGS=-mod=mod GOPROXY=off GOSUMDB=off GOTOOLCHAIN=local
-P=$1; OUT=/tmp/seed-$P-out; W=/tmp/demo-$P-$$
+P=$1; OUT=${SEEDPFX:-/tmp/seed}-$P-out; W=/tmp/demo-$P-$$
 git -C /repo worktree add -q --detach $W HEAD || exit 2
 trap "git -C /repo worktree remove --force $W" EXIT
 run_demo() {
   if [ -f $OUT/demo.sh ]; then
-    (cd $W && sed "s#/tmp/seed-$P\b#$W#g" $OUT/demo.sh > /tmp/demo-$P.sh && bash /tmp/demo-$P.sh > /tmp/demo-$P.log 2>&1); return $?
+    (cd $W && sed "s#${SEEDPFX:-/tmp/seed}-$P#$W#g" $OUT/demo.sh > /tmp/demo-$P.sh && bash /tmp/demo-$P.sh > /tmp/demo-$P.log 2>&1); return $?
   fi
   pkg=$(grep -m1 '^package ' $OUT/demo_test.go | awk '{print $2}' | sed 's/_test$//')
   cp $OUT/demo_test.go $W/$pkg/zz_demo_test.go
